@@ -224,6 +224,11 @@ class PropertyCheck:
     def run_impl(self, scenario: Scenario) -> tuple[list[str], list[Failure]]:
         import impl as _impl_mod
         _impl_mod.REUSE_OPERATIONS = bool(scenario.meta.get("reuse_ops"))
+        # one scenario in six (chosen by its text; never a corpus entry): a SIBLING dispatcher on another instance with the same
+        # operation ids is kept busy in the same process between the scenario's commands - nothing of it may leak
+        import zlib as _zlib
+        _impl_mod.SIBLING = bool(scenario.meta.get("sibling", "corpus" not in scenario.meta and
+                                                   _zlib.crc32("\n".join(scenario.lines[:40]).encode()) % 6 == 0))
         impl = self.make_impl(scenario)
         outs: list[str] = []
         fails: list[Failure] = []
